@@ -524,13 +524,14 @@ Definition entries_per_pdu (space : Z) : Z :=
   let rest := (space mod 242)%Z in
   if (2 <? rest)%Z then (n + (rest - 2) / 16)%Z else n.
 
-(* the less function of the sort.Slice call: SystemID bytes, then PseudonodeID = first 7 bytes of the LSPID *)
+(* the less function of the sort.Slice call: LSPID.Compare(other) < 0 = SystemID bytes, then PseudonodeID,
+   then LSPNumber = lexicographic order of the 8 LSPID bytes *)
 Fixpoint lex_lt (x y : list N) : bool :=
   match x, y with
   | a :: x', b :: y' => if a <? b then true else if b <? a then false else lex_lt x' y'
   | _, _ => false
   end.
-Definition entry_lt (a b : lspentry) : bool := lex_lt (firstn 7 (le_id a)) (firstn 7 (le_id b)).
+Definition entry_lt (a b : lspentry) : bool := lex_lt (le_id a) (le_id b).
 
 (* sort.Slice is modelled as a stable insertion sort (what Go runs for fewer than 13 elements; for
    longer slices pdqsort may order entries with equal keys differently - the theorems only use
